@@ -839,7 +839,7 @@ def seq_signature(line, out):
 def lockstep(ctx, harness, model):
     if "lockstep_probes" not in ctx.stats:
         run_probes(ctx, harness)
-    lines = [l for l in corpus_lines() if l.split()[1] not in ("keylie", "fnkind")] + gen_seqs(ctx)
+    lines = [l for l in corpus_lines() if l.split()[1] not in ("keylie", "fnkind", "enumlie", "model", "mutate")] + gen_seqs(ctx)
     for kind in KIND_KEYS:
         for hk in "JG":
             if kind not in ("margs",):
@@ -1215,6 +1215,136 @@ def modelcorr(ctx, harness, model):
     ctx.obligation("corr:target-models==implementation", "correspondence", not bad,
                    "" if not bad else "; ".join("%s: %s %s" % b for b in bad[:5]))
 
+
+# ------------------------------------------------------------------------------------------------
+# correspondence D: enumeration through a proxy whose getOwnPropertyDescriptor trap lies per key (Enumerate.lean)
+# ------------------------------------------------------------------------------------------------
+
+ENUM_KEYS = ["k7", "kx", "ky", "kg", "knc", "kna", "knw", "y1"]
+
+def enumlie_expected(api, non_ext, lies, facts):
+    """§7.3.23 EnumerableOwnProperties / GetOwnPropertyKeys / CopyDataProperties over the proxy: (result, trap sequence)"""
+    keys = [(t.rsplit(":", 1)[0], t.rsplit(":", 1)[1][0] == "1", t.rsplit(":", 1)[1][1] == "1") for t in facts.split(",")]
+    log = ["ownKeys"]
+    is_sym = lambda k: not k.startswith("k")
+    if api == "n":
+        return "k:" + ",".join(k for k, _, _ in keys if not is_sym(k)), log
+    if api == "s":
+        return "k:" + ",".join(k for k, _, _ in keys if is_sym(k)), log
+    out = []
+    for k, enum, conf in keys:
+        if is_sym(k) and api != "a":
+            continue
+        log.append("gopd:" + k)
+        a = lies.get(k, "h")
+        if a == "t":
+            return "T:RangeError", log
+        if a == "u":
+            if not conf or non_ext:
+                return "T:TypeError", log
+            continue
+        if a == "f":
+            if not conf:
+                return "T:TypeError", log
+            enum = not enum
+        if enum:
+            out.append(k)
+            if api in ("e", "a"):
+                log.append("get:" + k)
+    return "k:" + ",".join(out), log
+
+def enumlie(ctx, harness):
+    lines = []
+    lie_sets = ["-"] + ["%s:%s" % (k, a) for k in ENUM_KEYS for a in "uft"]
+    if ctx.tier == "thorough":
+        for _ in range(150):
+            ks = ctx.rng.sample(ENUM_KEYS, ctx.rng.randint(2, 4))
+            lie_sets.append(",".join("%s:%s" % (k, ctx.rng.choice("uffth")) for k in ks))
+    else:
+        for _ in range(12):
+            ks = ctx.rng.sample(ENUM_KEYS, 2)
+            lie_sets.append(",".join("%s:%s" % (k, ctx.rng.choice("ufth")) for k in ks))
+    for api in "knseaf":
+        for ne in "01":
+            for ls in lie_sets:
+                lines.append("Q enumlie %s %s %s" % (api, ne, ls))
+    out, err = run_sharded(ctx, harness, lines, shards=2)
+    if out is None:
+        ctx.obligation("corr:enumeration.harness-run", "correspondence", False, err)
+        return
+    bad = []
+    for l, o in zip(lines, out):
+        f = l.split()
+        ctx.count(1)
+        if o.count("#") != 2:
+            bad.append((l, o, "well-formed answer")); continue
+        res, facts, log = o.split("#")
+        lies = {} if f[4] == "-" else dict(x.rsplit(":", 1) for x in f[4].split(","))
+        exp, elog = enumlie_expected(f[2], f[3] == "1", lies, facts)
+        if res != exp or log != ",".join(elog):
+            bad.append((l, res + " [" + log + "]", exp + " [" + ",".join(elog) + "]"))
+        else:
+            ctx.nontriv(l)
+    ctx.stats["enumeration_cases"] = len(lines)
+    ctx.obligation("corr:enumeration.impl==spec", "correspondence", not bad,
+                   "" if not bad else "; ".join("%s -> %s (spec: %s)" % b for b in bad[:4]))
+    seen = set()
+    for l, o, e in bad[:6]:
+        f = l.split()
+        sig = "C11/enumeration through a proxy (%s): %s" % ({"k": "Object.keys", "n": "getOwnPropertyNames", "s": "getOwnPropertySymbols",
+               "e": "Object.entries", "a": "Object.assign", "f": "for-in"}[f[2]], "wrong result" if o.split(" [")[0] != e.split(" [")[0] else "wrong trap sequence")
+        if sig in seen:
+            continue
+        seen.add(sig)
+        ctx.violation(sig, "%s -> %s; ECMA-262 §7.3.23 requires %s" % (l, o[:300], e[:300]), {"kind": "history", "ops": [l], "observed": o, "expected": e})
+
+
+# ------------------------------------------------------------------------------------------------
+# correspondence E: handlers that MUTATE the target inside the trap (Handler.lean: the check reads the target afterwards)
+# ------------------------------------------------------------------------------------------------
+
+MUTATIONS = ["none", "nc", "ncw", "pe", "del", "delpe", "acc"]
+MUT_RESULTS = {
+    "get": ["i1", "i2", "u", "i9"], "has": ["0", "1"], "del": ["0", "1"], "def": ["0", "1"], "set": ["0", "1"],
+    "ie": ["0", "1"], "pe": ["0", "1"],
+    "gopd": ["u", "i1,1,1,1,-,-", "i2,0,1,0,-,-", "i2,1,1,0,-,-", "i2,0,1,1,-,-", "-,-,1,0,u,u", "-,-,1,1,u,u", "i2,-,-,-,-,-"],
+}
+
+def mutate(ctx, harness):
+    lines = ["Q mutate %s %s %s" % (t, m, r) for t in MUT_RESULTS for m in MUTATIONS for r in MUT_RESULTS[t]]
+    out, err = run_sharded(ctx, harness, lines, shards=1)
+    if out is None:
+        ctx.obligation("corr:mutating-handlers.harness-run", "correspondence", False, err)
+        return
+    bad = []
+    for l, o in zip(lines, out):
+        f = l.split()
+        ctx.count(1)
+        if o.count("#") != 2:
+            bad.append((l, o, "well-formed answer")); continue
+        res, ext, cur = o.split("#")
+        if cur.startswith("A:"):
+            c = cur[2:].split(",")
+            cur = "A:%s,%s,%s,%s" % ("-" if c[0] == "u" else c[0], "-" if c[1] == "u" else c[1], c[2], c[3])
+        if res.startswith("d:A:"):
+            c = res[4:].split(",")
+            res = "d:A:%s,%s,%s,%s" % ("-" if c[0] == "u" else c[0], "-" if c[1] == "u" else c[1], c[2], c[3])
+        trap, r = f[2], f[4]
+        # the equivalent lattice case: the target as the trap LEFT it, the trap's answer
+        fields = {"get": [ext, cur, r], "has": [ext, cur, r], "del": [ext, cur, r, "0"], "def": [ext, cur, "i5,-,-,-,-,-", r, "0"],
+                  "set": [ext, cur, "i5", r, "0"], "gopd": [ext, cur, r], "ie": [ext, r], "pe": [ext, r, "0"]}[trap]
+        exp = py_spec(["E", "J", "S", trap] + fields)
+        if res != exp:
+            bad.append((l, o, exp))
+        else:
+            ctx.nontriv(l)
+    ctx.stats["mutating_handler_cases"] = len(lines)
+    ctx.obligation("corr:mutating-handlers.impl==spec-at-check-time", "correspondence", not bad,
+                   "" if not bad else "; ".join("%s -> %s (spec with the target as the trap left it: %s)" % b for b in bad[:4]))
+    for l, o, e in bad[:4]:
+        ctx.violation("C11/mutating handler: " + l, "%s -> %s; ECMA-262 §10.5 (target read after the trap) requires %s" % (l, o, e),
+                      {"kind": "history", "ops": [l], "observed": o, "expected": e})
+
 # ------------------------------------------------------------------------------------------------
 # main
 # ------------------------------------------------------------------------------------------------
@@ -1223,7 +1353,7 @@ THEOREMS_MIN = 100
 
 def build(ctx):
     regen_ok = ctx.regen()
-    ok, errs = ctx.lake_build(["GojaModel.C11.Props", "GojaModel.C11.Tie", "model_c11"])
+    ok, errs = ctx.lake_build(["GojaModel.C11.Props", "GojaModel.C11.Tie", "GojaModel.C11.Props2", "GojaModel.C11.Tie2", "GojaModel.C11.Tie3", "model_c11"])
     model = ctx.model_exe()
     if not ok:
         # the driver may still be buildable (it does not import Props / Tie)
@@ -1234,6 +1364,12 @@ def build(ctx):
         model = None            # a stale Generated file must not be used as the mechanism model
     ctx.audit("GojaModel.C11.Props", expect_min=THEOREMS_MIN)
     ctx.audit("GojaModel.C11.Tie", expect_min=10)
+    # round 2: handler_inv_* (invariants with the target re-read at check time) + enumeration helpers mechanism = spec.
+    # Tie2 (one `rfl` text equality) is checked by the build above; its axiom audit runs in the thorough tier only.
+    ctx.audit("GojaModel.C11.Props2", expect_min=17)
+    if ctx.tier == "thorough":
+        ctx.audit("GojaModel.C11.Tie2", expect_min=1)
+        ctx.audit("GojaModel.C11.Tie3", expect_min=1)
     if ctx.tier == "thorough":
         ctx.leanchecker("GojaModel.C11.Props")
     harness = ctx.go_build()
@@ -1256,6 +1392,8 @@ def main(ctx):
     lattice(ctx, harness, model)
     keylie(ctx, harness)
     fnkinds(ctx, harness)
+    enumlie(ctx, harness)
+    mutate(ctx, harness)
     run_probes(ctx, harness)
     modelcorr(ctx, harness, model)
     lockstep(ctx, harness, model)
@@ -1270,6 +1408,15 @@ def history_problems(line, out):
         return [] if out.startswith("OK ") else [out]
     if f[1] == "fnkind":
         return [] if out.startswith("OK ") else [out]
+    if f[1] == "mutate":
+        return [] if out.count("#") == 2 else [out]
+    if f[1] == "enumlie":
+        if out.count("#") != 2:
+            return [out]
+        res, facts, log = out.split("#")
+        lies = {} if f[4] == "-" else dict(x.rsplit(":", 1) for x in f[4].split(","))
+        exp, elog = enumlie_expected(f[2], f[3] == "1", lies, facts)
+        return [] if (res == exp and log == ",".join(elog)) else ["enumeration: observed %s [%s], ECMA-262 requires %s [%s]" % (res, log, exp, ",".join(elog))]
     if f[1] == "keylie":
         if out == "NA":
             return []
